@@ -100,6 +100,15 @@ class Ctx:
         e.update({"GOFLAGS": "-mod=mod", "GOPROXY": "off", "GONOSUMDB": "pgregory.net", "GOPRIVATE": "pgregory.net"})
         e.pop("GOTOOLCHAIN", None)   # auto toolchain switch to cached go1.25.0 is required
         e.pop("GOSUMDB", None)
+        if os.path.realpath(self.repo) != "/repo" and not os.environ.get("VERIF_SHARED_GOCACHE"):
+            # a scratch copy (mutant, seeded change): its build output must not pile up in the shared Go build cache
+            # (85 MB per run, 39 GB after a few hundred runs); a private cache costs ~20 s and is removed at exit
+            gc = os.path.join(self.out, "gocache")
+            if not getattr(self, "_gocache", None):
+                self._gocache = gc
+                import atexit
+                atexit.register(lambda: shutil.rmtree(gc, ignore_errors=True))
+            e["GOCACHE"] = gc
         return e
 
     def build(self, cmd, race=False, tags="verif"):
